@@ -2,6 +2,7 @@ import H2V.Lemmas.ConnFlowPReq4
 import H2V.Lemmas.ConnFlowPInit
 import H2V.Lemmas.ConnFlowPWire
 import H2V.Lemmas.ConnFlowPWake
+import H2V.Lemmas.ConnFlowPCold2
 /-
   ConnFlowP, part 29 — the statements `H2V/Props/C02.lean` and `H2V/Props/C16.lean` appeal to, in their
   final form (this file only assembles; the work is in parts 1–28).
